@@ -226,7 +226,13 @@ func setRewriteResult(res *Result, host string, rewrites []*LegacyRewrite, qtype
 		if rw.Type == qtype && (qtype == dns.TypeA || qtype == dns.TypeAAAA) {
 			if rw.IP == (netip.Addr{}) {
 				// "A"/"AAAA" exception: allow getting from upstream.
-				res.Reason = NotFilteredNotFound
+				if res.CanonName == "" {
+					res.Reason = NotFilteredNotFound
+				} else {
+					// Keep the CNAME rewrites that have led to host, and let
+					// the upstream resolve the canonical name.
+					res.IPList = nil
+				}
 
 				return
 			}
